@@ -28,4 +28,11 @@ CLAIMED = {
              "kept only via decision.allowed or Audit, Enforce requires a validated tenant, allow() is dominated by parse success, tenant equality and (Public | match).",
         note="Not decided: value-level set matching of principals/roles/groups and string normalisation. Callee summaries for 'grows the hit list' are bounded to depth 2.",
         design_ref="DESIGN.md §4 C12"),
+    "C05": dict(
+        technique="MIR guard-edge dominance + interprocedural caller-chain check for constant-0 ring positions; must-pass-through; field-set agreement",
+        text="Partial: the ring invariants the WAL code relies on are decided on all paths - a ring position becomes 0 only where pending_bytes == 0 is established "
+             "(in the function or at every caller), an append writes only after both capacity comparisons and is always followed by the sentinel, a checkpoint stores "
+             "exactly the reviewed fields from write_head/sequence, scan reports a record only after checksum equality and bounds, records_after filters strictly by sequence.",
+        note="Not decided: the exhaustive state-space claim over operation sequences and sizes (value reasoning). The rule found a genuine defect on the pinned tree (sentinel wrap), repaired by fix commit f7468a8.",
+        design_ref="DESIGN.md §4 C05"),
 }
